@@ -111,7 +111,11 @@ def history(cfg, log, async_, rng, n_steps, recs, meta):
                 lv = sorted(live(t))
                 if lv:
                     o = rng.choice(lv)
-                    accs[t].unwatch(obs(t, o))
+                    try:
+                        accs[t].unwatch(obs(t, o))
+                    except ValueError as e:
+                        # an observer that was registered (and not removed since) is not known to the item
+                        RAISED.append((name + "/unwatch", step, 0, 0, repr(e)[:200]))
                     ops[t].append({"op": "u", "o": o})
             else:
                 accs[t].unwatch_all()
@@ -421,7 +425,8 @@ def run(ctx):
                        "items": [{k: v for k, v in it.items() if k != "labels"} for it in r_["items"][:12]],
                        "calls": r_["calls"][:12]})
     for (name, step, off_, n_, what) in RAISED[:50]:
-        ctx.violation({"clause": "update-raised", "structure": name.split("/")[1],
+        ctx.violation({"clause": "registered-observer-unknown-at-unwatch" if name.endswith("/unwatch") else "update-raised",
+                       "structure": name.split("/")[1],
                        "path": "refresh" if name.endswith("/refresh") else "patch"},
                       {"where": name, "step": step, "off": off_, "n": n_, "exception": what})
     ev.cov["evaluations"] = n
